@@ -112,6 +112,7 @@ PROPS = {
             "after a wallet crash cut the wallet continues only through restore (post-cut states depend on tie-breaks); NUT-08 change, MPP, UpdateMintURL are not modelled",
         ]),
     'C10': dict(
+        coqchk=False,
         file='Props/C10.v',
         streams=[('c10-bdhke', 'pure')],
         assumptions=[
@@ -120,6 +121,7 @@ PROPS = {
             "the executable secp256k1 instance (Crypto/Secp256k1.v, BDHKEsecp.v) is tied to the Go code bit for bit by the correspondence stream",
         ]),
     'C11': dict(
+        coqchk=False,
         file='Props/C11.v',
         streams=[('c11-h2c', 'pure'), ('c11-keysetid', 'pure'), ('c11-nut13', 'pure'), ('c11-prims', 'pure')],
         assumptions=[
